@@ -189,6 +189,16 @@ Definition strides_impl (t : ity) (m : mapping) : res (list Z) :=
         (length (exts m)) (Ok [])
   end.
 
+(* layout_stride::mapping() : strides_storage(true_type): stride = 1; for r = R-1 .. 0: s[r] = stride;
+   stride *= e.extent(r)  (e the default extents: 0 at dynamic positions) *)
+Fixpoint dflt_go (t : ity) (v : Z) (rs : list Z) : res (list Z) :=
+  match rs with
+  | [] => Ok []
+  | e :: rs' => bind (mul_assign t v e) (fun v' => rmap (cons v) (dflt_go t v' rs'))
+  end.
+Definition default_stride_strides (t : ity) (es : list Z) : res (list Z) :=
+  rmap (@rev Z) (dflt_go t 1 (rev es)).
+
 (* ---- flags ---------------------------------------------------------------------------------------- *)
 Fixpoint fold_times_right (t : ity) (es : list Z) : res Z :=
   match es with [] => Ok 1 | e :: es' => bind (fold_times_right t es') (fun r => mulP t e r) end.
